@@ -110,6 +110,7 @@ static int family_f(int f) { return f <= F_REALLOC_ZERO_THEN_FREE ? 0 : 1; }
 static char g_cur_rp[160] = "errors";
 static char g_rerun[64] = "errors";   // a crash can depend on the allocations made before: the replay re-runs the whole deterministic sequence
 static void crash_handler(int sig) { char buf[300]; int k = snprintf(buf, sizeof buf, "\nCRASH-AT signal %d while checking '%s' in: %s\n", sig, g_cur_rp, g_rerun); ssize_t w = write(2, buf, (size_t)k); (void)w; _exit(128 + sig); }
+static long n_high;
 static void check_tuple(int a, int r, int f, size_t n, size_t al) {
   char rp[120]; snprintf(rp, sizeof rp, "tuple %d %d %d %zu %zu", a, r, f, n, al); n_eval++; snprintf(g_cur_rp, sizeof g_cur_rp, "%s", rp);
   if (a < 0 || a >= A_COUNT || f < 0 || f >= F_COUNT) return;
@@ -120,7 +121,11 @@ static void check_tuple(int a, int r, int f, size_t n, size_t al) {
 #endif
   size_t gn = 0, ga = 0; void* p = do_alloc(a, n, al, &gn, &ga);
   if (!p) { if (n <= (64u << 20) && !(a == A_REALLOCARRAY_NULL && !p_reallocarray)) violation(rp, "%s(%zu, align %zu) returned NULL", A_NAMES[a], n, al); return; }
-  if (!mi_in_region(p)) { violation(rp, "%s(%zu) returned %p which mi_is_in_heap_region rejects: not served by the override", A_NAMES[a], n, p); return; }
+  // (segments mapped straight from the OS for alignments above one segment get no address hint and land above the 48 TiB the segment map covers:
+  //  mi_is_in_heap_region is documented not to see them -- the usable-size agreement below still identifies the allocator)
+  bool high = (uintptr_t)p >= ((uintptr_t)48 << 40); if (high) n_high++;
+  if (!high && !mi_in_region(p)) { violation(rp, "%s(%zu) returned %p which mi_is_in_heap_region rejects: not served by the override", A_NAMES[a], n, p); return; }
+  if (high && mi_usable(p) < gn) { violation(rp, "%s(%zu, align %zu) returned %p which the allocator does not know (usable size %zu)", A_NAMES[a], n, al, p, mi_usable(p)); return; }
   size_t us = malloc_usable_size(p), mu = mi_usable(p);
   if (us != mu) violation(rp, "malloc_usable_size(%p)=%zu but mi_usable_size=%zu (block from %s)", p, us, mu, A_NAMES[a]);
   if (mu < gn) violation(rp, "usable size %zu < requested %zu (%s)", mu, gn, A_NAMES[a]);
@@ -131,7 +136,7 @@ static void check_tuple(int a, int r, int f, size_t n, size_t al) {
   if (r == R_REALLOC_GROW || r == R_REALLOC_SHRINK || (r == R_REALLOCARRAY && p_reallocarray)) {
     size_t n2 = (r == R_REALLOC_SHRINK ? gn / 3 + 1 : gn * 2 + 100); void* q = (r == R_REALLOCARRAY ? p_reallocarray(p, (n2 + 3) / 4, 4) : realloc(p, n2)); if (r == R_REALLOCARRAY) n2 = ((n2 + 3) / 4) * 4;
     if (!q) { violation(rp, "realloc(%p,%zu) of a block from %s returned NULL", p, n2, A_NAMES[a]); free(p); return; }
-    if (!mi_in_region(q)) violation(rp, "realloc result %p not in the allocator's heap", q);
+    if ((uintptr_t)q < ((uintptr_t)48 << 40) && !mi_in_region(q)) violation(rp, "realloc result %p not in the allocator's heap", q);
     size_t keep = gn < n2 ? gn : n2; b = (unsigned char*)q; if (!is_str) for (size_t i = 0; i < keep; i++) if (b[i] != (unsigned char)(i * 31 + 7)) { violation(rp, "realloc of a block from %s lost byte %zu", A_NAMES[a], i); break; }
     if (malloc_usable_size(q) < n2) violation(rp, "usable size after realloc %zu < %zu", malloc_usable_size(q), n2);
     if (q != p) moved = true;
@@ -149,6 +154,8 @@ static void check_errors(void) {
   rc = posix_memalign(&out, 0, 100); if (rc != EINVAL || out != (void*)0x5e5e) violation("errors", "posix_memalign(align 0) returned %d / modified the out-parameter", rc);
   rc = posix_memalign(&out, 64, SIZE_MAX - 100); if (rc != ENOMEM || out != (void*)0x5e5e) violation("errors", "posix_memalign(huge size) returned %d / modified the out-parameter", rc);
   if (p_reallocarray) { errno = 0; void* q = p_reallocarray(NULL, SIZE_MAX / 2 + 2, 2); if (q != NULL || errno != ENOMEM) violation("errors", "reallocarray overflow returned %p errno %d", q, errno); }
+  if (p_reallocarray) { errno = EBADF; /* stale code of an earlier unrelated failure */ void* q = p_reallocarray(NULL, SIZE_MAX / 2 + 2, 2); if (q != NULL || errno != ENOMEM) violation("errors", "reallocarray overflow with a stale errno returned %p errno %d (ENOMEM expected)", q, errno);
+    void* live = malloc(100); errno = ENOENT; q = p_reallocarray(live, SIZE_MAX / 3, 4); if (q != NULL || errno != ENOMEM) violation("errors", "reallocarray overflow on a live block with a stale errno returned %p errno %d", q, errno); free(live); }
   { void* q = calloc(SIZE_MAX / 2 + 2, 2); if (q != NULL) violation("errors", "calloc overflow returned %p", q); }
   { void* q = malloc(SIZE_MAX - 4096); if (q != NULL) violation("errors", "malloc(SIZE_MAX-4096) returned %p", q); }
 #ifndef OVR_C
@@ -169,6 +176,14 @@ static void run_all(int thorough) {
   // the full A x F matrix for representatives of every size class kind, with and without a resize in between
   static const size_t reps[] = { 0, 1, 8, 24, 100, 1000, 4096, 9000, 70000, 600000, 5000000, 40000000 }; static const size_t aligns[] = { 8, 16, 64, 4096, 65536, 1048576 };
   for (size_t ri = 0; ri < sizeof reps / sizeof *reps; ri++) for (int a = 0; a < A_COUNT; a++) for (int f = 0; f < F_COUNT; f++) { size_t al = aligns[(ri + (size_t)a + (size_t)f) % 6]; check_tuple(a, (int)((ri + (size_t)a) % R_COUNT), f, reps[ri], al); }
+  // alignments of two and four segments (64/128 MiB): the block lives in a segment of its own that is mapped straight from the OS
+  { static const int al_fns[] = { A_POSIX_MEMALIGN, A_ALIGNED_ALLOC, A_MEMALIGN,
+#ifndef OVR_C
+      A_NEW_ALIGNED, A_NEW_ARR_ALIGNED_NOTHROW,
+#endif
+    };
+    static const size_t big_al[] = { (size_t)64 << 20, (size_t)128 << 20 }; static const size_t ns[] = { 1, 100, 70000, 5000000 };
+    for (size_t i = 0; i < sizeof al_fns / sizeof *al_fns; i++) for (int f = 0; f < F_COUNT; f++) check_tuple(al_fns[i], (int)((i + (size_t)f) % R_COUNT), f, ns[(i + (size_t)f) % 4], big_al[(i + (size_t)f) % 2]); }
   long N = thorough ? 400000 : 12000;
   for (long i = 0; i < N; i++) { size_t n; unsigned k = (unsigned)(rnd() % 8); n = (k < 4 ? rnd() % 2000 : k < 6 ? rnd() % 70000 : k == 6 ? rnd() % 3000000 : rnd() % 40000000); if (rnd() % 50 == 0) n = ((size_t)1 << (rnd() % 26)) + (size_t)(rnd() % 3) - 1;
     check_tuple((int)(rnd() % A_COUNT), (int)(rnd() % R_COUNT), (int)(rnd() % F_COUNT), n, (size_t)1 << (3 + rnd() % 18)); }
